@@ -31,6 +31,7 @@ type Plan struct {
 	UpMode   string `json:"up_mode"` // cl | chunked (h1) ; data (h2)
 	UpTrail  bool   `json:"up_trailers"`
 	TrailMs  int    `json:"trailer_delay_ms,omitempty"` // HTTP/2: wait this long before the trailers (they cross the proxy's early response)
+	Whole    bool   `json:"whole,omitempty"`            // HTTP/2: the body travels in one unpadded DATA frame that also ends the stream
 	PauseMs  int    `json:"frame_pause_ms,omitempty"`   // HTTP/2: pause between DATA frames (a slow upload)
 	DownLen  int    `json:"down"`
 	DownPc   int    `json:"down_piece"`
@@ -265,10 +266,12 @@ type h2conn struct {
 	done  map[uint32]chan struct{}
 }
 
+var h2Deadline = 120 * time.Second
+
 func newH2(cl *stack.Client) *h2conn {
 	c := &h2conn{cl: cl, cwin: 65535, swin: map[uint32]int{}, initw: 65535, down: map[uint32]*struct{ off int }{}, plan: map[uint32]*Plan{}, done: map[uint32]chan struct{}{}}
 	c.cond = sync.NewCond(&c.fmu)
-	cl.Conn.SetDeadline(time.Now().Add(120 * time.Second))
+	cl.Conn.SetDeadline(time.Now().Add(h2Deadline))
 	cl.Conn.Write([]byte(h2raw.Preface))
 	cl.Conn.Write(h2raw.Settings(h2raw.Setting{ID: 4, Val: 1 << 20}))
 	cl.Conn.Write(h2raw.WindowUpdate(0, 1<<24))
@@ -366,6 +369,9 @@ func (c *h2conn) send(sid uint32, p *Plan, rng *rand.Rand) {
 	}
 	off := 0
 	ps := pieces(rng, p.UpLen)
+	if p.Whole {
+		ps = []int{p.UpLen}
+	}
 	for i, k := range ps {
 		for k > 0 {
 			c.fmu.Lock()
@@ -383,7 +389,7 @@ func (c *h2conn) send(sid uint32, p *Plan, rng *rand.Rand) {
 				n = 16384
 			}
 			pad := -1
-			if rng.Intn(8) == 0 && n+50 < c.cwin && n+50 < c.swin[sid] && n+50 <= 16384 {
+			if !p.Whole && rng.Intn(8) == 0 && n+50 < c.cwin && n+50 < c.swin[sid] && n+50 <= 16384 {
 				pad = rng.Intn(40)
 			}
 			cost := n
@@ -427,10 +433,19 @@ func toHeader(fs []h2raw.HF) http.Header {
 }
 
 func h2Batch(cl *stack.Client, ps []*Plan, rng *rand.Rand) error {
-	c := newH2(cl)
+	var c *h2conn
+	return h2BatchOn(cl, ps, rng, &c, 1)
+}
+
+// h2BatchOn runs a batch on a fresh HTTP/2 session (*sess == nil) or continues the session of the previous call with the next stream ids
+func h2BatchOn(cl *stack.Client, ps []*Plan, rng *rand.Rand, sess **h2conn, firstSid uint32) error {
+	if *sess == nil {
+		*sess = newH2(cl)
+	}
+	c := *sess
 	var ids []uint32
 	for i, p := range ps {
-		sid := uint32(1 + 2*i)
+		sid := firstSid + uint32(2*i)
 		ids = append(ids, sid)
 		c.fmu.Lock()
 		c.swin[sid] = c.initw
@@ -623,6 +638,34 @@ func main() {
 				}
 				ev(map[string]any{"op": "end", "class": class})
 			}
+		}
+		if !preserve {
+			// a long-lived HTTP/2 connection: many small uploads, each body in a single DATA frame that also ends the stream, more octets in total than
+			// any window of the connection - whatever credit the proxy owes for a body it must pay back whenever and wherever the handler reads it
+			class := "many_small_uploads"
+			ev(map[string]any{"op": "reset", "class": class})
+			var ps []*Plan
+			for i := 0; i < 180; i++ {
+				ps = append(ps, mk("h2", class, false, func(p *Plan) {
+					p.Method, p.UpMode, p.UpLen, p.UpTrail, p.Whole, p.DownLen, p.DownPc, p.DownTr, p.DownLate, p.Status = "POST", []string{"data", "data_cl"}[i%2], 8000, false, true, 10, 10, false, false, 200
+				}))
+			}
+			h2Deadline = 20 * time.Second
+			cl, err := stack.DialStd(st.Addr, stack.DialOpts{ALPN: []string{"h2"}}, nil)
+			if err == nil {
+				var sess *h2conn
+				for at := 0; at < len(ps); at += 30 { // thirty at a time, one batch after the other on the same connection
+					if err := h2BatchOn(cl, ps[at:at+30], rng, &sess, uint32(1+2*at)); err != nil {
+						ev(map[string]any{"op": "client_error", "r": ps[at].ID, "err": err.Error()})
+						break
+					}
+				}
+				cl.Close()
+			} else {
+				notes = append(notes, "dial: "+err.Error())
+			}
+			h2Deadline = 120 * time.Second
+			ev(map[string]any{"op": "end", "class": class})
 		}
 		if !preserve {
 			// D17: request A declares content-length 0 and announces trailers; the proxy does not wait for them and answers; A's trailers, already on
